@@ -15,13 +15,21 @@ import (
 // it rejected them (analysis then runs without projectors, as after a rejected request).
 func VerifAnalyze(npre, nsamp int, signed bool, data []RawType,
 	prows, pcols int, proj []float64, brows, bcols int, basis []float64) (rec VerifRecord, setErr bool) {
-	dsp := NewDataStreamProcessor(0, nil, npre, nsamp)
+	return VerifAnalyzeRecord(npre, nsamp, npre, signed, data, prows, pcols, proj, brows, bcols, basis)
+}
+
+// VerifAnalyzeRecord is VerifAnalyze for a record whose own pre-trigger length (recNpre) and length
+// (len(data)) need not be the processor's configured (cfgNpre, cfgNsamp) - as the records of the
+// edge-multi variable-length mode.
+func VerifAnalyzeRecord(cfgNpre, cfgNsamp, recNpre int, signed bool, data []RawType,
+	prows, pcols int, proj []float64, brows, bcols int, basis []float64) (rec VerifRecord, setErr bool) {
+	dsp := NewDataStreamProcessor(0, nil, cfgNpre, cfgNsamp)
 	if prows > 0 {
 		p := mat.NewDense(prows, pcols, proj)
 		b := mat.NewDense(brows, bcols, basis)
 		setErr = dsp.SetProjectorsBasis(p, b, "verif") != nil
 	}
-	r := &DataRecord{data: data, presamples: npre, signed: signed}
+	r := &DataRecord{data: data, presamples: recNpre, signed: signed}
 	dsp.AnalyzeData([]*DataRecord{r})
 	return VerifFromRecord(r), setErr
 }
